@@ -167,7 +167,7 @@ def single_defs(P, u):
     return {n: v for n, v in vals.items() if counts.get(n) == 1}
 
 
-def resolve_locals(P, u, expr, depth=4):
+def resolve_locals(P, u, expr, depth=4, keep=()):
     """copy of expr with single-definition locals replaced by their defining expressions (copy propagation on the AST)"""
     import copy
     defs = single_defs(P, u)
@@ -177,15 +177,15 @@ def resolve_locals(P, u, expr, depth=4):
             self.d = d
 
         def visit_Name(self, node):
-            if isinstance(node.ctx, ast.Load) and node.id in defs and self.d > 0:
+            if isinstance(node.ctx, ast.Load) and node.id in defs and node.id not in keep and self.d > 0:
                 v = copy.deepcopy(defs[node.id])
                 return R(self.d - 1).visit(v)
             return node
     return R(depth).visit(copy.deepcopy(expr))
 
 
-def rtext(P, u, expr):
-    return ast.unparse(resolve_locals(P, u, expr)).replace(' ', '')
+def rtext(P, u, expr, keep=()):
+    return ast.unparse(resolve_locals(P, u, expr, keep=keep)).replace(' ', '')
 
 
 def reaching_defs(u, cfg):
